@@ -29,7 +29,7 @@ R1_TABLE = {
     ("util.solver", "list", "list(S) in raise-argument"): "argument of the SolveExceptionNoSolution that is raised (message only)",
     ("util.solver", "pop", "{k: S.pop() for k, S in D.items()}"): "dict comprehension over sets that were just checked to have exactly one element (`len(values) != 1` raises above)",
     ("namedtensor.stage2.solve", "list", "return list(S)"): "result is only compared with a one-element list ([axis_name] != ...); for one element order is irrelevant",
-    ("frontend.backend", "list", "S = list(S)"): "with more than one element the list only reaches the priority filter (max and ==, order-free) and then either a singleton or the BackendResolutionError text",
+    ("frontend.backend", "list", "T = list(S)"): "with more than one element the list only reaches the priority filter (max and ==, order-free) and then either a singleton or the BackendResolutionError text",
     ("functorchdim.namedtensor_from_functorchdim", "dictcomp", "{k: D[k] for k in S}"): "dict is only used by key lookup (axes[axis.name])",
 }
 
@@ -53,8 +53,8 @@ def consumer_shape(kind, e, node):
     if kind == "list":
         if isinstance(st, ast.Return) and st.value is node:
             return "return list(S)"
-        if isinstance(st, ast.Assign) and st.value is node and len(st.targets) == 1 and norm(st.targets[0]) == norm(e):
-            return "S = list(S)"
+        if isinstance(st, ast.Assign) and st.value is node and len(st.targets) == 1 and isinstance(st.targets[0], ast.Name):
+            return "T = list(S)"
         if isinstance(par, ast.Call) and isinstance(getattr(par, "_parent", None), ast.Raise):
             return "list(S) in raise-argument"
         if isinstance(st, ast.Raise):
